@@ -112,6 +112,34 @@ def run_case(case):
                                              AntarcticIce(valid_range=(-2850, -500), index_above=None, index_below=None)])
     tr = case["tracer"]
     tracer, ice = config(tr)
+    if tr == "basic":
+        # the numeric tracer has known ways of failing inside its root search (C01/C02 findings): a subclass hands the
+        # failure out together with the mechanism observables measured on the failing tracer object
+        from vt.checks.c01 import bracket_end_observables
+
+        class TracerFailed(ValueError):
+            pass
+        _Base = tracer
+
+        class ObservedTracer(_Base):
+            @property
+            def solutions(self):
+                try:
+                    return _Base.solutions.__get__(self, type(self))
+                except TracerFailed:
+                    raise
+                except Exception as e:       # noqa: BLE001
+                    obs = bracket_end_observables(self)
+                    try:
+                        z_ = [float(self.from_point[2]), float(self.to_point[2])]
+                        obs["turn_depth_error"] = float(max(abs(float(self.ice.depth_with_index(self.ice.index(q))) - q) for q in z_))
+                        obs["z_turn_proximity"] = float(self.z_turn_proximity)
+                    except Exception:       # noqa: BLE001
+                        pass
+                    err = TracerFailed(type(e).__name__ + ": " + str(e)[:120])
+                    err.observables = dict(obs, source=[float(x) for x in self.from_point], receiver=[float(x) for x in self.to_point])
+                    raise err
+        tracer = ObservedTracer
     model = {"ARZ": ask.ARZAskaryanSignal, "AVZ": ask.AVZAskaryanSignal, "ZHS": ask.ZHSAskaryanSignal}[case["model"]]
     model_calls = []
 
@@ -208,7 +236,13 @@ def run_case(case):
             del model_calls[:]
             del trig_calls[:]
             count0 = generator.count
-            ret = kern.event()
+            try:
+                ret = kern.event()
+            except ValueError as e_:
+                if tr == "basic" and hasattr(e_, "observables"):
+                    v.check(False, "the configured ray tracer answers inside the kernel (no exception)", error=str(e_), **dict(geo, **e_.observables))
+                    break
+                raise
             thrown = generator.count - count0
             ev = ret if triggers is None else ret[0]
             v.check(isinstance(ev, Event), "event() returns the generator's event", returned=type(ret).__name__, **geo)
@@ -325,5 +359,11 @@ def fx_path_metadata(case, viol):
 
 def kf_basic_max_angle_nan(case, viol):
     """see KF-C01-basic-max-angle-nan: the numeric tracer's root bracket ends on a NaN for about 1 in 300 pairs."""
+    import math
     d = viol["detail"]
-    return case.get("tracer") == "basic" and viol["clause"] == "unexpected exception from pyrex" and "NaN" in d.get("message", "") and d.get("raised_in", "").endswith("angle_search")
+    if not (case.get("tracer") == "basic" and viol["clause"] == "the configured ray tracer answers inside the kernel (no exception)"):
+        return False
+    confined = ("r_at_max_angle" in d and math.isnan(d["r_at_max_angle"]) and math.isfinite(d.get("r_just_below_max_angle", float("nan")))
+                and math.isfinite(d.get("r_at_half_max_angle", float("nan"))) and d["r_at_half_max_angle"] > 0)
+    unresolved = d.get("turn_depth_error", 0.0) > d.get("z_turn_proximity", float("inf"))      # see KF-C01-basic-turning-depth-unresolved
+    return ("NaN" in d.get("error", "") and confined) or (("NaN" in d.get("error", "") or "different signs" in d.get("error", "")) and unresolved)
